@@ -39,7 +39,9 @@ func (t *Term) String() string {
 }
 
 // Is reports whether the term has the given op and name.
-func (t *Term) Is(op, name string) bool { return t != nil && t.Op == op && (name == "" || t.Name == name) }
+func (t *Term) Is(op, name string) bool {
+	return t != nil && t.Op == op && (name == "" || t.Name == name)
+}
 
 // IsField: Field[name](base)
 func (t *Term) IsField(name string) (*Term, bool) {
@@ -55,9 +57,9 @@ func (t *Term) IsParam(name string) bool { return t != nil && t.Op == "Param" &&
 // Terms builds terms for one function, resolving phis through an optional
 // environment (path-sensitive) and looking through single-store cells.
 type Terms struct {
-	p     *Prog
-	env   func(ssa.Value) ssa.Value // optional resolution of phis / inlined parameters and call results
-	depth int
+	p      *Prog
+	env    func(ssa.Value) ssa.Value // optional resolution of phis / inlined parameters and call results
+	depth  int
 	allocN map[*ssa.Alloc]int
 }
 
@@ -598,4 +600,9 @@ func forwardedStore(ld *ssa.UnOp, cell *ssa.Alloc) ssa.Value {
 		}
 	}
 	return nil
+}
+
+// ContainsValue: some subterm of t was built from the SSA value v.
+func (t *Term) ContainsValue(v ssa.Value) bool {
+	return t.Find(func(x *Term) bool { return x.V == v }) != nil
 }
